@@ -1,6 +1,10 @@
 """C09 — isolated-margin liquidation (price formulas; the trigger part is decided on engine sessions)."""
 import math
+import random
+from math import gcd
 
+import engcorr
+import engoracles
 import acct
 import core
 import jesse_env
@@ -16,7 +20,10 @@ class C09(core.Check):
                 'jesse/models/Position.py:Position.is_close', 'jesse/models/Position.py:Position.is_open',
                 'jesse/models/Position.py:Position.pnl', 'jesse/models/Position.py:Position.value',
                 'jesse/models/Position.py:Position.total_cost']
-    rule = ('translator cross-check: real Position.liquidation_price/bankruptcy_price/type/pnl/value/total_cost (real Position '
+    rule = ('engine: isolated and cross sessions with leverage 10..125 on candles that approach, touch and jump over the '
+            'liquidation price, with and without protective stops, on the real engine and on the Lean engine model (identical '
+            'traces incl. the force-closing order), trigger oracle on real traces (force-close iff open after matching and '
+            'range contains the liquidation price; closing order fields; count); translator cross-check: real Position.liquidation_price/bankruptcy_price/type/pnl/value/total_cost (real Position '
             'objects inside a real futures/spot store, isolated and cross) vs the generated definitions for leverages 1..125, '
             'long/short/closed, lattice and random entries; oracle: ordering bankruptcy < liquidation < entry (mirrored for '
             'shorts) for every leverage 1..125 and no liquidation price in cross/spot, on the real objects; non-trivial = '
@@ -69,9 +76,140 @@ class C09(core.Check):
                                  ('pos_type', 'type'), ('pos_value', 'value'), ('pos_pnl', 'pnl'), ('total_cost', 'total_cost')):
                     batch.append((fn, w, (lambda attr=attr, snap=snap: snap(attr)), 'Position.' + attr))
         purecorr.cross_check(res, batch)
+        self.engine_correspondence(res, boost)
+
+    def engine_sessions(self, n, rng):
+        out = []
+        for _ in range(n):
+            lev = rng.choice([10, 25, 50, 100, 125])
+            out.append(engcorr.gen_session(rng, kinds=('futures',), isolated=rng.random() < 0.85, leverage=lev, max_n=120,
+                                           vol=rng.choice([4, 8, 16]), gap_prob=rng.choice([0.1, 0.4]), lengths=[30, 60, 120],
+                                           tight=rng.random() < 0.3))
+        return out
+
+    def engine_correspondence(self, res, boost):
+        rng = random.Random(self.seed * 7919 + 9)
+        engcorr.compare_sessions(res, self.engine_sessions(self.budget(40, 700, boost), rng))
+
+    def trigger_oracle(self, res, boost):
+        """on real traces: a force-close happens at the end of a minute (chunk) iff the position is still open after
+        matching and the range contains its liquidation price; the closing order is a reduce-only MARKET order on the
+        closing side for the whole position at the bankruptcy price; the loss is the initial margin plus fees"""
+        M = 60_000
+        rng = random.Random(self.seed * 104729 + 9)
+        for sess in self.engine_sessions(self.budget(60, 1200, boost), rng):
+            cands = engcorr.candles_of(sess)
+            ev, tr, err = engcorr.run_real(sess, cands)
+            res.count('sessions:' + ('fast' if sess['fast'] else 'step') + (':isolated' if sess['isolated'] else ':cross'))
+            if err is not None:
+                res.count('session-error:' + type(err).__name__)
+                continue
+            step = 1
+            if sess['fast']:
+                step = 0
+                for (_, tf) in sess['routes'] + sess['droutes']:
+                    step = gcd(step, engcorr.TFM[tf])
+            orders = engoracles.order_table(tr)
+            L = sess['leverage']
+            nliq = 0
+            for sym in sess['syms']:
+                arr = cands[sym]
+                t0 = int(arr[0][0])
+                n = len(arr)
+                # position after every fill, in time order
+                fills = [(e[2], e[1]) for e in tr.events if e[0] == 'FILL' and e[3] == sym]
+                pos_after = {}
+                qty, entry = 0.0, None
+                idx = 0
+                evs = [e for e in tr.events if (e[0] == 'FILL' and e[3] == sym) or (e[0] == 'POS' and e[1] == sym)]
+                # a liquidation order: MARKET, reduce-only, submitted and filled with no strategy call in between, price != cur
+                liq_orders = set()
+                for k, o in orders.items():
+                    if o['sym'] == sym and o['type'] == 'MARKET' and o['ro'] and o['cur'] is not None and o['filled'] == o['submitted'] \
+                            and abs(o['price'] - o['cur']) > 1e-9 and self.is_liq_order(tr, k):
+                        liq_orders.add(k)
+                nliq += len(liq_orders)
+                state_at_unit_end = {}
+                cur_q, cur_e = 0.0, None
+                pending = None
+                for e in evs:
+                    if e[0] == 'FILL':
+                        pending = e
+                    else:
+                        k = pending[1]
+                        unit = ((int(pending[2]) - M - t0) // M) // step if orders[k]['type'] != 'MARKET' or k in liq_orders else None
+                        if k in liq_orders:
+                            unit = ((int(pending[2]) - M - t0) // M) // step if not sess['fast'] else ((int(pending[2]) - t0) // M - 1) // step
+                            # check the closing order itself
+                            o = orders[k]
+                            bk = cur_e * (1 - 1 / L) if cur_q > 0 else cur_e * (1 + 1 / L)
+                            liq = cur_e * (1 - 1 / L + 0.004) if cur_q > 0 else cur_e * (1 + 1 / L - 0.004)
+                            okside = o['side'] == ('sell' if cur_q > 0 else 'buy')
+                            if not (okside and abs(abs(o['qty']) - abs(cur_q)) < 1e-9 and abs(o['price'] - bk) < 1e-9 * max(1, bk)):
+                                res.fail(**{'class': 'liquidation/closing-order', 'input': self.desc(sess), 'observed': o,
+                                            'expected': {'side': 'closing', 'qty': abs(cur_q), 'price': bk}})
+                            c0, c1 = unit * step, min(unit * step + step, n)
+                            lo, hi = self.unit_range(arr, c0, c1)
+                            if not (lo - 1e-9 <= liq <= hi + 1e-9) or not sess['isolated']:
+                                res.fail(**{'class': 'liquidation/force-closed-without-trigger', 'input': self.desc(sess),
+                                            'observed': {'order': k, 'liquidation_price': liq, 'range': [lo, hi], 'unit': [c0, c1]}})
+                            state_at_unit_end[unit] = 'liquidated'
+                        cur_q, cur_e = e[2], e[3]
+                        t = int(pending[2])
+                        pos_after[t] = (cur_q, cur_e)
+                # no missed liquidation: replay the position per unit end
+                timeline = sorted(pos_after.items())
+                for c0 in range(0, n, step):
+                    c1 = min(c0 + step, n)
+                    t_end = t0 + c1 * M
+                    q, en = 0.0, None
+                    for (t, (qq, ee)) in timeline:
+                        if t <= t_end:
+                            q, en = qq, ee
+                    unit = c0 // step
+                    if q != 0 and en is not None and sess['isolated'] and state_at_unit_end.get(unit) != 'liquidated':
+                        liq = en * (1 - 1 / L + 0.004) if q > 0 else en * (1 + 1 / L - 0.004)
+                        lo, hi = self.unit_range(arr, c0, c1)
+                        # positions opened by a MARKET order at the strategy step of this very unit end are opened AFTER the check
+                        opened_after = any(t == t_end and orders[k]['type'] == 'MARKET' for (t, k) in fills)
+                        if lo <= liq <= hi and not opened_after and abs(min(abs(liq - lo), abs(liq - hi))) > 1e-9:
+                            res.fail(**{'class': 'liquidation/missed', 'input': self.desc(sess),
+                                        'observed': {'unit': [c0, c1], 'position': [q, en], 'liquidation_price': liq, 'range': [lo, hi]}})
+                            break
+            res.seen((sess['candle_seed'], sess['fast']), nliq > 0)
+            res.count('liquidations', nliq)
+            if tr.final and tr.final['liquidations'] != nliq:
+                res.fail(**{'class': 'liquidation/count', 'input': self.desc(sess),
+                            'observed': {'counted': tr.final['liquidations'], 'force_closing_orders': nliq}})
+
+    @staticmethod
+    def is_liq_order(tr, k):
+        # the liquidation order is created by the simulator, not through the broker: it is never queued in to_execute;
+        # in the trace it is the only MARKET order whose FILL directly follows its SUBMIT
+        idx = next(i for i, e in enumerate(tr.events) if e[0] == 'SUBMIT' and e[1] == k)
+        return idx + 1 < len(tr.events) and tr.events[idx + 1][0] == 'FILL' and tr.events[idx + 1][1] == k
+
+    @staticmethod
+    def unit_range(arr, c0, c1):
+        lo = min(float(arr[x][4]) for x in range(c0, c1))
+        hi = max(float(arr[x][3]) for x in range(c0, c1))
+        if c0 > 0:
+            pc = float(arr[c0 - 1][2])
+            o0 = float(arr[c0][1])
+            if pc < o0:
+                lo = min(lo, pc)
+            elif pc > o0:
+                hi = max(hi, pc)
+        return lo, hi
+
+    @staticmethod
+    def desc(sess):
+        return {'session': {kk: sess[kk] for kk in ('kind', 'fee', 'leverage', 'isolated', 'fast', 'routes', 'droutes', 'n',
+                                                    'scripts', 'candle_seed', 'vol', 'gap_prob')}}
 
     def oracle(self, res, boost):
         jesse_env.setup()
+        self.trigger_oracle(res, boost)
         r = self.rng
         for lev in range(1, 126):
             s = acct.Session('futures', 10_000, 0.0, leverage=lev, mode='isolated')
